@@ -290,7 +290,8 @@ fn corruptions(f: &[u8], version: u8, v1: &Block, v2: Option<&Block>, rec: &Reco
                 tl.rejected += 1;
                 if let Some(k) = kind {
                     if !e.contains(k) {
-                        rec.violation("corruptions", case(), json!(format!("error {k} ({class})")), json!(e));
+                        // C08 states "rejected", not which error: recorded, not judged
+                        rec.note("rejection_carries_another_error_kind", || json!({"case": case(), "expected": k, "got": e}));
                     }
                 }
             }
